@@ -8,9 +8,11 @@ Every intercepted call is one seam operation:
     <the real syscall>
     sim.after_op(...)
 
-Faults: `sim.arm([{"kind": "err_before", "at": k, "count": "mut", "exc": osseam.os_error(name, path)}])`
-makes the k-th intercepted call since `arm()` raise and have no effect (DESIGN 3.4
-`os_err`).  `delete_any`, `chmod_if_possible`, `ensure_empty_directory_exists` are Rust:
+Faults: `sim.arm([{"kind": "err_before", "at": k, "count": "mut", "exc": osseam.fault_exception(name, path)}])`
+makes the k-th intercepted call since `arm()` raise and have no effect: an OSError for an
+errno name (DESIGN 3.4 `os_err`), KeyboardInterrupt / SystemExit for "INT" / "EXIT" (fault
+kind `interrupt`: the process is interrupted between two file-system calls but keeps
+running its clean-up handlers).  `delete_any`, `chmod_if_possible`, `ensure_empty_directory_exists` are Rust:
 they can only be failed as a whole call.
 
 The seam is only active for a thread whose Sim called `osseam.activate(sim, roots)`;
@@ -46,6 +48,24 @@ def os_error(name, path=""):
     """The OSError injected for errno `name` (message free of absolute paths)."""
     code = ERRNOS[name] if isinstance(name, str) else int(name)
     return OSError(code, f"{_os.strerror(code)} (injected)", path)
+
+
+INTERRUPTS = {"INT": KeyboardInterrupt, "EXIT": SystemExit}
+
+
+def fault_exception(name, path=""):
+    """The exception a fault point raises before the intercepted call is made: an OSError
+    for an errno name (fault kind `os_err`), KeyboardInterrupt for "INT" / SystemExit for
+    "EXIT" (fault kind `interrupt`: Ctrl-C or a signal handler's sys.exit() arriving while
+    the code under test is between two file-system calls).  Arm it like any error:
+    {"kind": "err_before", "at": k, "count": "mut", "exc": fault_exception(name)}."""
+    if name in INTERRUPTS:
+        return INTERRUPTS[name]("injected interrupt") if name == "INT" else SystemExit(3)
+    return os_error(name, path)
+
+
+def fault_kind(name):
+    return "interrupt" if name in INTERRUPTS else "os_err"
 
 
 def activate(sim, roots):
